@@ -822,6 +822,7 @@ def install():
     import importlib
     import os
     os.environ["PYCRYPTODOME_DISABLE_GMP"] = "1"
+    from . import ecnat      # noqa: F401  (registers the EC native models)
     m = importlib.import_module("Crypto.Util._raw_api")
     m.load_pycryptodome_raw_lib = load_pycryptodome_raw_lib
     m.c_uint8_ptr = c_uint8_ptr
@@ -836,6 +837,8 @@ def install():
     m.c_ubyte = c_ubyte
     m.null_pointer = None
     m.backend = "pysym"
+    import atexit
+    atexit.register(lambda: setattr(m.SmartPointer, '__del__', lambda self: None))
 
 
 # --------------------------------------------------------------------------------------------
@@ -1039,4 +1042,74 @@ class RawOcb(object):
         return 0
 
     def OCB_stop_operation(self, st):
+        return 0
+
+
+# --------------------------------------------------------------------------------------------
+# Keccak sponge (contract over a whole-message UF; src/keccak.c is executed by LLSYM under C03/C09)
+
+KECCAK_CHUNK = 64
+
+
+def keccak_stream(cap, rounds, padding, msg, start, n):
+    """bytes [start, start+n) of the sponge output for (capacity, rounds, padding byte, message):
+    chunk i of KECCAK_CHUNK bytes = UF_i(msg)  => reads are prefix-consistent by construction"""
+    out = []
+    if n == 0:
+        return out
+    first, last = start // KECCAK_CHUNK, (start + n - 1) // KECCAK_CHUNK
+    chunks = []
+    for i in range(first, last + 1):
+        chunks.extend(UF("KECCAK_c%d_r%d_p%02x_blk%d" % (cap, rounds, padding, i), [msg], KECCAK_CHUNK))
+    off = start - first * KECCAK_CHUNK
+    return chunks[off:off + n]
+
+
+@register("Crypto.Hash._keccak")
+class KeccakLib(object):
+    def keccak_init(self, out, capacity_bytes, rounds):
+        cap = operator.index(capacity_bytes)
+        if cap >= 200:
+            return ERR_DIGEST_SIZE
+        r = operator.index(rounds)
+        if r not in (12, 24):
+            return ERR_NR_ROUNDS
+        out.set(dict(cap=cap, rounds=r, data=[], squeezing=False, pos=0, padding=None))
+        return 0
+
+    def keccak_destroy(self, st):
+        return 0
+
+    def keccak_reset(self, st):
+        st.update(data=[], squeezing=False, pos=0, padding=None)
+        return 0
+
+    def keccak_absorb(self, st, inp, n):
+        if st['squeezing']:
+            return 32
+        st['data'].extend(rd(inp, n))
+        return 0
+
+    def keccak_squeeze(self, st, out, n, padding):
+        n = operator.index(n)
+        if not st['squeezing']:
+            st['squeezing'] = True
+            st['padding'] = operator.index(padding)
+        wr(out, keccak_stream(st['cap'], st['rounds'], st['padding'], st['data'], st['pos'], n))
+        st['pos'] += n
+        return 0
+
+    def keccak_digest(self, st, out, n, padding):
+        n = operator.index(n)
+        if 2 * n != st['cap']:
+            return 32
+        if st['squeezing']:
+            wr(out, keccak_stream(st['cap'], st['rounds'], st['padding'], st['data'], st['pos'], n))
+        else:
+            wr(out, keccak_stream(st['cap'], st['rounds'], operator.index(padding), st['data'], 0, n))
+        return 0
+
+    def keccak_copy(self, src, dst):
+        dst.update(cap=src['cap'], rounds=src['rounds'], data=list(src['data']), squeezing=src['squeezing'],
+                   pos=src['pos'], padding=src['padding'])
         return 0
